@@ -1,6 +1,5 @@
 // ksim — simulated kernel objects behind --wrap seams (see ksim.hpp)
-#include "ksim.hpp"
-#include <vmc_rt.hpp>
+#include "ksim_int.hpp"
 
 #include <cerrno>
 #include <climits>
@@ -32,29 +31,23 @@ int __real_clock_gettime(clockid_t, struct timespec*);
 }
 
 namespace ksim {
-namespace {
-enum Kind { FREE = 0, EPOLL, EVENTFD, TIMERFD, PIPE_R, PIPE_W };
-struct Reg { int fd; uint32_t events; epoll_data_t data; };
-struct Pipe { std::deque<unsigned char> buf; int cap = 4; bool r_open = false, w_open = false; };
-struct Obj {
-  int kind = FREE; bool nonblock = false;
-  uint64_t counter = 0;             // eventfd
-  bool armed = false; long long due = 0;  // timerfd (virtual ns)
-  int pipe = -1;                    // index into g_pipes
-  std::vector<Reg> regs;            // epoll
-  int opened = 0, closed = 0;
-};
-constexpr int NFD = 48, NPIPE = 16;
-constexpr long long CLOCK_OFFSET_NS = 1000LL * 1000000000LL;
+namespace detail {
 Obj g_tab[NFD];
 Pipe g_pipes[NPIPE];
 Config g_cfg;
 bool g_active = false;
+void (*on_state_change)() = nullptr;
+bool (*close_hook)(int fd, Obj& o) = nullptr;
+long (*rw_hook)(Obj& o, const struct iovec* iov, int cnt, bool write) = nullptr;
+}  // namespace detail
+using namespace detail;
+namespace {
 int g_calls[C_NCALLS];
 int g_npipes = 0;
 int g_ever_opened = 0;
 std::string g_double_close;
-
+}  // namespace
+namespace detail {
 bool in_exec() { return g_active; }
 Obj* obj(int fd) {
   if (fd < BASE || fd >= BASE + NFD) return nullptr;
@@ -71,8 +64,6 @@ int alloc(int kind) {
     }
   vmcrt::fail("!", "harness", "ksim: descriptor table full");
 }
-void step(const void* addr) { vmcrt::point(addr, vmcrt::K_KERNEL); }
-void wrote(const void* addr, uint64_t v) { vmcrt::observed(addr, vmcrt::K_RMW, v, true); }
 bool fault(int call) {
   int n = g_calls[call]++;
   if (g_cfg.fault_call == call && (n == g_cfg.fault_nth || (g_cfg.fault_sticky && n >= g_cfg.fault_nth))) { errno = g_cfg.fault_errno; return true; }
@@ -116,6 +107,7 @@ long pipe_read(Obj& o, const struct iovec* iov, int cnt, int call) {
     done += k;
   }
   wrote(&p, 0x100 + done);
+  if (on_state_change) on_state_change();
   return (long)done;
 }
 long pipe_write(Obj& o, const struct iovec* iov, int cnt, int call) {
@@ -141,6 +133,7 @@ long pipe_write(Obj& o, const struct iovec* iov, int cnt, int call) {
     done += k;
   }
   wrote(&p, 0x200 + done);
+  if (on_state_change) on_state_change();
   return (long)done;
 }
 
@@ -176,6 +169,7 @@ long do_readv(int fd, const struct iovec* iov, int cnt, int call) {
       wrote(o, 0x400);
       return 8;
     }
+    case FILE_: return rw_hook ? rw_hook(*o, iov, cnt, false) : (errno = EINVAL, -1);
     default: errno = EINVAL; return -1;
   }
 }
@@ -191,8 +185,10 @@ long do_writev(int fd, const struct iovec* iov, int cnt, int call) {
       uint64_t v; std::memcpy(&v, iov[0].iov_base, 8);
       o->counter += v;
       wrote(o, 0x500 + o->counter);
+      if (on_state_change) on_state_change();
       return 8;
     }
+    case FILE_: return rw_hook ? rw_hook(*o, iov, cnt, true) : (errno = EINVAL, -1);
     default: errno = EINVAL; return -1;
   }
 }
@@ -206,6 +202,7 @@ int do_close(int fd) {
   }
   step(o);
   if (fault(C_CLOSE)) { wrote(o, 0xE0 + errno); return -1; }
+  if ((o->kind == URING || o->kind == FILE_) && close_hook) close_hook(fd, *o);
   // the kernel drops every epoll registration of a closed descriptor
   for (auto& e : g_tab) if (e.kind == EPOLL) for (size_t i = 0; i < e.regs.size();) { if (e.regs[i].fd == fd) e.regs.erase(e.regs.begin() + i); else ++i; }
   if (o->kind == PIPE_R) { g_pipes[o->pipe].r_open = false; wrote(&g_pipes[o->pipe], 0x600); }
@@ -213,11 +210,15 @@ int do_close(int fd) {
   wrote(o, 0x602);
   int opened = o->opened, closed = o->closed + 1;
   *o = Obj{}; o->opened = opened; o->closed = closed;
+  if (on_state_change) on_state_change();
   return 0;
 }
 }  // namespace
 
+void uring_reset() __attribute__((weak));
+std::string uring_leaks() __attribute__((weak));
 void reset(const Config& c) {
+  if (&uring_reset) uring_reset();
   for (auto& o : g_tab) o = Obj{};
   for (auto& p : g_pipes) p = Pipe{};
   std::memset(g_calls, 0, sizeof g_calls);
@@ -229,7 +230,8 @@ bool is_sim(int fd) { return obj(fd) != nullptr; }
 int open_count() { int n = 0; for (auto& o : g_tab) if (o.kind != FREE) ++n; return n; }
 std::string leaks() {
   std::string s = g_double_close;
-  static const char* names[] = {"free", "epoll", "eventfd", "timerfd", "pipe-read", "pipe-write"};
+  if (&uring_leaks) s += uring_leaks();
+  static const char* names[] = {"free", "epoll", "eventfd", "timerfd", "pipe-read", "pipe-write", "io_uring", "file"};
   for (int i = 0; i < NFD; ++i) if (g_tab[i].kind != FREE) s += std::string(names[g_tab[i].kind]) + " descriptor " + std::to_string(BASE + i) + " never closed; ";
   return s;
 }
@@ -271,6 +273,7 @@ int k_pipe2(int fds[2], int flags) {
 }  // namespace ksim
 
 using namespace ksim;
+using namespace ksim::detail;
 
 extern "C" {
 int __wrap_epoll_create(int n) { if (!in_exec()) return __real_epoll_create(n); return alloc(EPOLL); }
